@@ -9,9 +9,12 @@ import (
 	"encoding/json"
 	"fmt"
 	"io"
+	"math/rand"
 	"os"
+	"strings"
 	"time"
 
+	"github.com/anz-bank/sysl/pkg/database"
 	"github.com/anz-bank/sysl/pkg/sysl"
 	"github.com/sirupsen/logrus"
 
@@ -26,6 +29,9 @@ type dtScenario struct {
 	Decls []render.Decl `json:"decls"`
 	Seed  int64         `json:"seed"`
 	Reps  int           `json:"reps"`
+	// Versions: a history of relational models (spec/DbGen.tla) instead of decls: the last version is the model,
+	// and the delta script from the version before it is one more generator
+	Versions [][]dbTable `json:"versions"`
 }
 
 func dig(b []byte) string {
@@ -50,6 +56,22 @@ func runDeterminism(in, out string, _ []string) error {
 			sc.Reps = 4
 		}
 		res := render.Render(sc.Decls, render.Layout{Seed: sc.Seed, Canonical: true})
+		var older *sysl.Module
+		if n := len(sc.Versions); n > 0 {
+			asFiles := func(v []dbTable) []*render.File {
+				var fs []*render.File
+				for name, text := range dbRender(v, rand.New(rand.NewSource(sc.Seed)), false) {
+					fs = append(fs, &render.File{Name: name, Lines: strings.Split(strings.TrimSuffix(text, "\n"), "\n")})
+				}
+				return fs
+			}
+			res = &render.Result{Files: asFiles(sc.Versions[n-1])}
+			if n > 1 {
+				if cr := compileFiles(asFiles(sc.Versions[n-2]), "main.sysl"); cr.panic == "" && cr.err == nil {
+					older = cr.m
+				}
+			}
+		}
 		w.Emit(tr.Ev{"t": sc.ID, "e": "begin", "pid": pid})
 		w.Flush()
 		var m *sysl.Module
@@ -63,7 +85,14 @@ func runDeterminism(in, out string, _ []string) error {
 			m = cr.m
 			w.Emit(tr.Ev{"t": sc.ID, "e": "gen", "g": "compile", "k": 0, "input": sc.ID, "run": r, "pid": pid, "digest": digestNoLoc(cr.m)})
 		}
-		for k, g := range generatorsFor(m) {
+		gens := generatorsFor(m)
+		if older != nil {
+			gens = append(gens, generator{name: "dbscript.delta", f: func(m *sysl.Module) ([]byte, error) {
+				v := database.MakeDatabaseScriptView("t", quietLogger())
+				return []byte(scriptContent(v.ProcessModSysls(older.GetApps(), m.GetApps(), []string{"Db"}, "", "postgres"))), nil
+			}})
+		}
+		for k, g := range gens {
 			for r := 1; r <= sc.Reps; r++ {
 				type res2 struct {
 					out      []byte
